@@ -173,6 +173,44 @@ def classify(tag, err):
     return "%s:%s" % (tag, msg)
 
 
+def bait_programs(rng, n):
+    """programs whose expressions sit where compilers issue value-dependent diagnostics: narrow variables, lengths, indexed bytes and
+    $last against constants outside their range, constants that do not fit their target, constant indices outside the buffer,
+    constant conditions, an append that reads the counter it increments"""
+    consts = ["0", "1", "-1", "127", "128", "255", "256", "300", "1000", "32768", "65535", "65536", "70000", "2147483647", "0xffffffff", "-129", "'a'"]
+    decls = ("out int{signed, size 1} a;\nout int{unsigned, size 1} b;\nout int{signed, size 2} c;\nout int{unsigned, size 2} d;\nout int e;\n"
+             "out int{unsigned, size 4} f;\nout int{size 8} g;\nout bool q = false;\nout str[3] s;\nout unterminated str[300] t;\nout raw{uint16_t} r;\nhook h;\n")
+    out = []
+    for _ in range(n):
+        atoms = ["a", "b", "c", "d", "e", "f", "g", "s.len", "t.len", "r.len", "s[0]", "s[1]", "s[7]", "t[299]", "t[300]", "r[1]", "r[2]", "$last", "s[s.len]", "s[a]"]
+        cmp_ = lambda: "%s %s %s" % ((rng.choice(atoms), rng.choice(["==", "!=", "<", ">", "<=", ">="]), rng.choice(consts))[:: rng.choice([1, -1])])
+        stmts = []
+        for _ in range(rng.choice([3, 5, 8])):
+            k = rng.random()
+            tgt = rng.choice("abcdefg")
+            if k < 0.35:
+                stmts.append("  if %s { h(); }\n" % cmp_())
+            elif k < 0.45:
+                stmts.append("  if %s && %s { h(); } elif %s || q { %s = %s; } else { h(); }\n" % (cmp_(), cmp_(), cmp_(), tgt, rng.choice(consts)))
+            elif k < 0.6:
+                stmts.append("  %s = %s;\n" % (tgt, rng.choice(consts)))
+            elif k < 0.75:
+                op = rng.choice(["+", "-", "*", "&", "|", "^", "<<", ">>", "/", "%"])
+                # (a constant shift count outside the operand width, or a zero divisor, is undefined in C: the user's error, not the generator's)
+                rhs = rng.choice(["1", "3", "7"]) if op in ("<<", ">>") else rng.choice([c for c in consts if c not in ("0", "-1", "-129", "0xffffffff", "2147483647", "65536", "70000", "32768", "65535")] + ["3", "7"])
+                stmts.append("  %s = [%s %s %s];\n" % (tgt, rng.choice(atoms), op, rhs))
+            elif k < 0.85:
+                stmts.append("  %s += [%s];\n" % (rng.choice("st"), rng.choice(atoms + consts[:8])))
+            elif k < 0.92:
+                stmts.append("  if %s { %s = %s; }\n" % (cmp_(), tgt, rng.choice(consts)))
+            else:
+                stmts.append("  if %s %s %s { h(); }\n" % (rng.choice(consts), rng.choice(["==", "<", ">="]), rng.choice(consts)))
+        stmts.append(rng.choice(["  s += [s.len];\n", "  t += [t.len + 1];\n", "  s += [s.len + s[0]];\n"]))
+        body = "".join('  /[a-z]/;\n' + x for x in stmts)
+        out.append(decls + "parser {\n loop {\n" + body + '  ";";\n }\n}\n')
+    return out
+
+
 def run(ctx: Ctx):
     rng = ctx.rng
     quick = ctx.quick
@@ -192,6 +230,12 @@ def run(ctx: Ctx):
         if quick and b in ("gtfs-realtime.nmfu", "ttc_rdf.nmfu", "http.nmfu"):
             continue
         progs.append((None, src, [a for a in args if not a.startswith("-O")], b))
+    for src in bait_programs(rng, 12 if quick else 120):
+        progs.append((None, src, [], "bait"))
+    # the smallest programs: nothing tests the input byte, nothing is stored, nothing is called
+    for src in ["parser { /./; }\n", "parser { loop { /./; } }\n", "hook h;\nparser { h(); /./; }\n", "out int e;\nparser { /./; e = 1; }\n",
+                "out str[4] s;\nparser { s += /./; }\n", "finishcode F;\nparser { /./; finish F; }\n"]:
+        progs.append((None, src, [], "tiny"))
     rows, uncovered = covering_rows(rng, n_rows, 2 if quick else 3)
     ctx.extra["covering_rows"] = len(rows)
     ctx.extra["uncovered_%s_way_combinations" % (2 if quick else 3)] = uncovered
@@ -207,7 +251,11 @@ def run(ctx: Ctx):
             ctx.count("compilations")
             if not r.ok:
                 ctx.count("rejected_under_options")
+                if label == "bait":
+                    ctx.count("bait_rejected")
                 continue
+            if label == "bait":
+                ctx.count("bait_accepted")
             jobs.append((idx, r, src, a, label))
             idx += 1
     ctx.count("accepted_program_option_pairs", len(jobs))
